@@ -716,6 +716,8 @@ impl Router {
                 Packet::Unsubscribe(unsubscribe, _) => {
                     let connection = self.connections.get_mut(id).unwrap();
                     let pkid = unsubscribe.pkid;
+                    // one UNSUBACK per UNSUBSCRIBE packet, with one reason per filter
+                    let mut reasons = Vec::with_capacity(unsubscribe.filters.len());
                     for filter in &unsubscribe.filters {
                         let span = tracing::info_span!("unsubscribe", topic = filter, pkid);
                         let _guard = span.enter();
@@ -724,6 +726,7 @@ impl Router {
                         if let Some(connection_ids) = self.subscription_map.get_mut(filter) {
                             let removed = connection_ids.remove(&id);
                             if !removed {
+                                reasons.push(UnsubAckReason::NoSubscriptionExisted);
                                 continue;
                             }
 
@@ -735,6 +738,7 @@ impl Router {
                                     pkid = unsubscribe.pkid,
                                     "Unsubscribe failed as filter was not subscribed previously"
                                 );
+                                reasons.push(UnsubAckReason::NoSubscriptionExisted);
                                 continue;
                             }
 
@@ -753,18 +757,22 @@ impl Router {
                             // remove the subscription id
                             connection.subscription_ids.remove(filter);
 
-                            let unsuback = UnsubAck {
-                                pkid,
-                                // reasons are used in MQTTv5
-                                reasons: vec![UnsubAckReason::Success],
-                            };
-                            let ackslog = self.ackslog.get_mut(id).unwrap();
-                            ackslog.unsuback(unsuback);
                             self.scheduler.untrack(id, filter);
                             self.datalog.remove_waiters_for_id(id, filter);
-                            force_ack = true;
+                            reasons.push(UnsubAckReason::Success);
+                        } else {
+                            reasons.push(UnsubAckReason::NoSubscriptionExisted);
                         }
                     }
+
+                    let unsuback = UnsubAck {
+                        pkid,
+                        // reasons are used in MQTTv5
+                        reasons,
+                    };
+                    let ackslog = self.ackslog.get_mut(id).unwrap();
+                    ackslog.unsuback(unsuback);
+                    force_ack = true;
                 }
                 Packet::PubAck(puback, _) => {
                     let span = tracing::info_span!("puback", pkid = puback.pkid);
